@@ -10,7 +10,11 @@ package main
 //              validates the oracle: the field values handed to the model are the file's
 //   inspect    input (container pem (state fields)) impl outcome of file.Inspect, full Info
 //   inspectx   input (container pem)               impl (outcome, list of "Curve (inferred)" values)
-//              files whose container does not decode (DER-level damage): nothing may be inferred
+//              damaged files in which no ECParameters structure decodes at any offset (of the file,
+//              of any PEM block in it, of its base64 decoding): nothing may be inferred
+//   inspectq   input (container pem (fields...))   impl as inspectx; spec checker only: damaged
+//              files the model does not describe but in which some ECParameters structure still
+//              decodes somewhere: a name may be shown only if one of them has that curve's components
 //   table      input ()                            impl the curve table after all calls above
 //
 // fields = (oid-arcs prime? char2? a b seed seedbits base order cofactor); integers travel as
@@ -30,6 +34,7 @@ import (
 	"github.com/edutko/decipher/internal/asn1struct"
 	wel "github.com/edutko/decipher/internal/crypto/elliptic"
 	"github.com/edutko/decipher/internal/file"
+	"github.com/edutko/decipher/internal/util"
 )
 
 func init() {
@@ -511,8 +516,50 @@ func (g *c16Gen) emitFile(tag string, kind int, pemForm bool, data []byte) {
 	case state == 1 || state == 0 && pemForm:
 		g.c.Emit("inspect:"+tag, SL{I(kind), I(pf), SL{I(state)}}, g.inspectFile(data, false))
 	default:
-		g.c.Emit("inspectx:"+tag, SL{I(kind), I(pf)}, g.inspectFile(data, true))
+		cands := SL{}
+		for _, f := range candidateParams(data) {
+			cands = append(cands, f.Sx())
+		}
+		if len(cands) == 0 {
+			g.c.Emit("inspectx:"+tag, SL{I(kind), I(pf)}, g.inspectFile(data, true))
+		} else {
+			g.c.Emit("inspectq:"+tag, SL{I(kind), I(pf), cands}, g.inspectFile(data, true))
+		}
 	}
+}
+
+// candidateParams: every ECParameters structure that encoding/asn1 decodes at any offset of the
+// file, of any PEM block in it, or of its base64 decoding -- a superset of what any route of the
+// code can have decoded from this file
+func candidateParams(data []byte) []ecFields {
+	var out []ecFields
+	scan := func(der []byte) {
+		for off := 0; off+2 <= len(der); off++ {
+			if der[off] != 0x30 {
+				continue
+			}
+			var p asn1struct.ECParameters
+			if _, err := asn1.Unmarshal(der[off:], &p); err == nil && p.Order != nil {
+				out = append(out, fieldsOf(p))
+			}
+		}
+	}
+	scan(data)
+	for rest := data; ; {
+		var blk *pem.Block
+		blk, rest = pem.Decode(rest)
+		if blk == nil {
+			break
+		}
+		scan(blk.Bytes)
+	}
+	func() {
+		defer func() { recover() }()
+		if dec, err := util.DecodeAnyBase64(data); err == nil {
+			scan(dec)
+		}
+	}()
+	return out
 }
 
 var c16Forms = [][2]int{{kSPKI, 0}, {kPKCS8, 0}, {kSEC1, 0}, {kSPKI, 1}, {kPKCS8, 1}, {kSEC1, 1}, {kParams, 1}}
@@ -737,7 +784,7 @@ func (g *c16Gen) malformed(ci int, compressed, withSeed bool, n int) {
 			}
 			g.emitFile("damaged-"+tag, kind, pemForm, d)
 		}
-		if !pemForm {
+		if !pemForm && !compressed && withSeed {
 			// every length octet of the DER header chain set to a few wrong values
 			for _, off := range []int{1, 2, 3} {
 				for _, v := range []byte{0, 0x7f, 0x80, 0x84, 0xff} {
